@@ -1,4 +1,98 @@
-//! stream `resolve` — not implemented yet
-pub fn handle(_args: &[&str]) -> Option<String> {
-    None
+//! stream `resolve` (front end): several modules through the real `MultiModuleResolver`
+//!
+//!   resolve mods  <hex1>,<hex2>,…          → ok <dump1> <dump2> … | err <class>
+//!   resolve subst <mods A> <mods B> [...]  → <answer for A> || <answer for B>
+//!   resolve perm  <hex1>,<hex2>,… [...]    → <answer for every load order, dumps put back into
+//!                                             request order>, joined by ` || `
+//!
+//! Module texts in load order; dumps as in the stream `parse` (resolved models).  A module that
+//! does not parse answers `err parse:<index>:<class>`.
+use crate::parse::{dump_model, parse_err_class, parse_text, resolve_err_class, text_of};
+use asn1rs_model::asn::MultiModuleResolver;
+
+fn texts_of(arg: &str) -> Option<Vec<String>> {
+    if arg == "-" {
+        return Some(Vec::new());
+    }
+    arg.split(',').map(text_of).collect()
+}
+
+/// resolves the texts loaded in the order `order`; the dumps are returned in request order
+fn resolve_in_order(texts: &[String], order: &[usize]) -> String {
+    let mut resolver = MultiModuleResolver::default();
+    for &i in order {
+        match parse_text(&texts[i]) {
+            Ok(m) => resolver.push(m),
+            Err(e) => return format!("err parse:{}:{}", i, parse_err_class(&e)),
+        }
+    }
+    match resolver.try_resolve_all() {
+        Ok(models) => {
+            let mut dumps = vec![String::new(); texts.len()];
+            for (k, m) in models.iter().enumerate() {
+                dumps[order[k]] = dump_model(m);
+            }
+            let mut s = String::from("ok");
+            for d in dumps {
+                s.push(' ');
+                s.push_str(&d);
+            }
+            s
+        }
+        Err(e) => format!("err {}", resolve_err_class(&e)),
+    }
+}
+
+fn permutations(n: usize) -> Vec<Vec<usize>> {
+    fn go(cur: &mut Vec<usize>, used: &mut Vec<bool>, n: usize, out: &mut Vec<Vec<usize>>) {
+        if cur.len() == n {
+            out.push(cur.clone());
+            return;
+        }
+        for i in 0..n {
+            if !used[i] {
+                used[i] = true;
+                cur.push(i);
+                go(cur, used, n, out);
+                cur.pop();
+                used[i] = false;
+            }
+        }
+    }
+    let mut out = Vec::new();
+    go(&mut Vec::new(), &mut vec![false; n], n, &mut out);
+    out
+}
+
+pub fn handle(args: &[&str]) -> Option<String> {
+    Some(match args {
+        ["mods", ms, ..] => {
+            let texts = texts_of(ms)?;
+            let order: Vec<usize> = (0..texts.len()).collect();
+            resolve_in_order(&texts, &order)
+        }
+        ["subst", a, b, ..] => {
+            let ta = texts_of(a)?;
+            let tb = texts_of(b)?;
+            let oa: Vec<usize> = (0..ta.len()).collect();
+            let ob: Vec<usize> = (0..tb.len()).collect();
+            format!(
+                "{} || {}",
+                resolve_in_order(&ta, &oa),
+                resolve_in_order(&tb, &ob)
+            )
+        }
+        ["perm", ms, ..] => {
+            let texts = texts_of(ms)?;
+            if texts.len() > 4 {
+                return None;
+            }
+            let v: Vec<String> = permutations(texts.len())
+                .iter()
+                .map(|o| resolve_in_order(&texts, o))
+                .collect();
+            v.join(" || ")
+        }
+        _ => return None,
+    })
 }
